@@ -53,6 +53,7 @@ fixed("F29", "C04", "subject.ref_count().retry(n): the subject errs, then comple
 fixed("F30", "C17", "persub<C>.ref_count() (also replay()): after the subscription ended and every handle was dropped the library still owned the closures of the source pipeline - the connect closure stored in the subject's on_subscribe hook held a full clone of that subject (reference cycle). Pointed out by a sub-agent as a side remark; reproduced once the C17 generator contained ref_count / replay", "regress/C17-ref_count-hook-cycle.json", "fix: ref_count and replay no longer keep themselves alive")
 fixed("F31", "C07", "hot.time_interval(): the subscriber pushes an item into the source from inside its callback - self-deadlock (the read guard of the time mark was held across the downstream call, the nested item then waits for the write lock); found when time_interval was added to the model-free generators", "regress/C07-time_interval-reentrant-emission.json", "fix: time_interval calls its subscriber")
 fixed("F32", "C11", "hot0.merge([hot1]).group_by(x mod 2), two emitting threads: an item pushed into a group that another thread had just created but not yet announced downstream was lost (introduced by the fix for F25, which stopped holding the map lock across the announcement); found when group_by was put behind the combinators fed from several threads", "regress/C11-group_by-item-lost-while-announcing.json", "fix: group_by does not lose items pushed into a group")
+fixed("F33", "C15", "cold<0 0 0>.observe_on_new().replay().ref_count() with a subscriber that takes 1, under a schedule with two preemptions: the subscriber is satisfied on the observe_on worker and leaves while connect is between reading its wanted flag and storing the source subscription - the subscription is stored for nobody, the source is never unsubscribed and the worker thread never exits (also C13 / C06); found by the thorough tier of C15", "regress/C15-replay-connect-stores-after-the-last-subscriber-left.json", "fix: replay() checks 'still wanted' and stores")
 import os, sys
 extra = os.path.join(os.path.dirname(__file__), 'known_extra.py')
 if os.path.exists(extra):
